@@ -1,4 +1,5 @@
 import TapkeeVerif.Model.Mat
+import TapkeeVerif.Model.DMat
 import TapkeeVerif.Model.MatExtra
 import TapkeeVerif.Model.Triplets
 import TapkeeVerif.Gen.HlleIndex
@@ -30,27 +31,36 @@ section
 variable {K : Type} [Add K] [Sub K] [Mul K] [Div K] [Neg K] [Zero K] [One K] [NatCast K]
 variable {N k : Nat}
 
-/-! ### linear_weight_matrix (KLLE, NPE) -/
+/-! ### linear_weight_matrix (KLLE, NPE)
+
+Staging: definitions whose result is a function recompute their `let`s on every entry access in compiled code
+(`Model/DMat.lean`), so every stage that is worth caching returns first-order data (`DMat`, `DVec`, `List`);
+`DMat.get_ofFn` / `DVec.get_ofFn` erase the staging in proofs. -/
 
 /-- `gram_matrix(i,j) = kernel_value - dots(i) - dots(j) + kernel(n_i, n_j)` for `j ≥ i` **only**;
     the buffer is zero-initialised once and its strictly lower triangle is never written. -/
 def lleLocalGram (κ : Mat N N K) (i : Fin N) (nb : Fin k → Fin N) : Mat k k K :=
   fun a b => if a ≤ b then κ i i - κ i (nb a) - κ i (nb b) + κ (nb a) (nb b) else 0
 
-/-- `trace = gram.trace(); gram.diagonal().array() += trace_shift * trace` -/
-def lleShifted (tshift : K) (G : Mat k k K) : Mat k k K :=
-  let tr := Mat.trace G
-  let s := tshift * tr
-  fun a b => if a = b then G a b + s else G a b
+/-- `gram.diagonal().array() += s` -/
+def addDiag (s : K) (G : Mat k k K) : Mat k k K := fun a b => if a = b then G a b + s else G a b
 
-/-- the matrix `ldlt()` factorises: `selfadjointView<Eigen::Upper>` of the shifted buffer -/
+/-- the matrix `ldlt()` factorises: `trace = gram.trace(); gram.diagonal() += trace_shift*trace;`
+    then `selfadjointView<Eigen::Upper>` of the buffer -/
+def lleSystemD (κ : Mat N N K) (i : Fin N) (nb : Fin k → Fin N) (tshift : K) : DMat k k K :=
+  let G := DMat.ofFn (lleLocalGram κ i nb)
+  let tr := Mat.trace G.get
+  DMat.ofFn (Mat.upperView (addDiag (tshift * tr) G.get))
+
 def lleSystem (κ : Mat N N K) (i : Fin N) (nb : Fin k → Fin N) (tshift : K) : Mat k k K :=
-  Mat.upperView (Mat.materialize (lleShifted tshift (Mat.materialize (lleLocalGram κ i nb))))
+  (lleSystemD κ i nb tshift).get
 
 /-- `weights /= weights.sum()` -/
-def lleWeights (wraw : Vec k K) : Vec k K :=
+def lleWeightsD (wraw : Vec k K) : DVec k K :=
   let s := sumFin k wraw
-  Vec.materialize fun a => wraw a / s
+  DVec.ofFn fun a => wraw a / s
+
+def lleWeights (wraw : Vec k K) : Vec k K := (lleWeightsD wraw).get
 
 /-- the triplets pushed for sample `i`, in program order -/
 def lleTripletsAt (i : Fin N) (nb : Fin k → Fin N) (w : Vec k K) (shift : K) : List (Triplet N N K) :=
@@ -58,16 +68,17 @@ def lleTripletsAt (i : Fin N) (nb : Fin k → Fin N) (w : Vec k K) (shift : K) :
     (List.finRange k).flatMap fun a =>
       (nb a, i, - w a) :: (i, nb a, - w a) :: (List.finRange k).map fun b => (nb a, nb b, w a * w b)
 
-def lleTriplets (nb : Fin N → Fin k → Fin N) (w : Fin N → Vec k K) (shift : K) : List (Triplet N N K) :=
-  overFin N fun i => lleTripletsAt i (nb i) (w i) shift
+/-- all triplets, given the raw `ldlt().solve` results -/
+def lleTriplets (nb : Fin N → Fin k → Fin N) (wraw : Fin N → Vec k K) (shift : K) : List (Triplet N N K) :=
+  overFin N fun i => lleTripletsAt i (nb i) (lleWeightsD (wraw i)).get shift
 
-/-- `linear_weight_matrix` given the raw `ldlt().solve` results -/
+/-- `linear_weight_matrix` -/
 def lleM (nb : Fin N → Fin k → Fin N) (wraw : Fin N → Vec k K) (shift : K) : Mat N N K :=
-  fromTriplets (lleTriplets nb (fun i => lleWeights (wraw i)) shift)
+  fromTriplets (lleTriplets nb wraw shift)
 
-/-- same, accumulating form (what the driver runs; equal by `fromTripletsArr_eq`) -/
-def lleMArr (nb : Fin N → Fin k → Fin N) (wraw : Fin N → Vec k K) (shift : K) : Mat N N K :=
-  fromTripletsArr (lleTriplets nb (fun i => lleWeights (wraw i)) shift)
+/-- same, accumulating form (what the driver runs; `.get` of it equals `lleM` by `fromTripletsD_get`) -/
+def lleMD (nb : Fin N → Fin k → Fin N) (wraw : Fin N → Vec k K) (shift : K) : DMat N N K :=
+  fromTripletsD (lleTriplets nb wraw shift)
 
 /-! ### tangent_weight_matrix (KLTSA, LLTSA) -/
 
@@ -76,22 +87,27 @@ def localGramSym (κ : Mat N N K) (nb : Fin k → Fin N) : Mat k k K :=
   fun a b => if a ≤ b then κ (nb a) (nb b) else κ (nb b) (nb a)
 
 /-- `utils/matrix.hpp: centerMatrix`, as written: `+ grand_mean`, `- col_means[j]`, `- col_means[i]` -/
-def centerMatrix (A : Mat k k K) : Mat k k K :=
-  let colMean : Vec k K := Vec.materialize fun j => (sumFin k fun i => A i j) / (k : K)
+def centerMatrixD (A : Mat k k K) : DMat k k K :=
+  let colMean : DVec k K := DVec.ofFn fun j => (sumFin k fun i => A i j) / (k : K)
   let grand : K := (sumFin k fun i => sumFin k fun j => A i j) / ((k * k : Nat) : K)
-  Mat.materialize fun i j => A i j + grand - colMean j - colMean i
+  DMat.ofFn fun i j => A i j + grand - colMean.get j - colMean.get i
 
-def localCentered (κ : Mat N N K) (nb : Fin k → Fin N) : Mat k k K :=
-  centerMatrix (Mat.materialize (localGramSym κ nb))
+def centerMatrix (A : Mat k k K) : Mat k k K := (centerMatrixD A).get
+
+def localCenteredD (κ : Mat N N K) (nb : Fin k → Fin N) : DMat k k K :=
+  centerMatrixD (localGramSym κ nb)
+
+def localCentered (κ : Mat N N K) (nb : Fin k → Fin N) : Mat k k K := (localCenteredD κ nb).get
 
 /-- `G = [ 1/sqrt(k) | eigenvectors().rightCols(d) ]` -/
 def ltsaG {d : Nat} (rsk : K) (U : Mat k d K) : Mat k (d + 1) K :=
   fun a c => if h : c.1 = 0 then rsk else U a ⟨c.1 - 1, by have := c.2; omega⟩
 
 /-- `gram_matrix.noalias() = G * G.transpose()` -/
-def ltsaProj {d : Nat} (rsk : K) (U : Mat k d K) : Mat k k K :=
-  let G := ltsaG rsk U
-  Mat.materialize (Mat.mul G (Mat.transpose G))
+def ltsaProjD {d : Nat} (rsk : K) (U : Mat k d K) : DMat k k K :=
+  DMat.ofFn (Mat.mul (ltsaG rsk U) (Mat.transpose (ltsaG rsk U)))
+
+def ltsaProj {d : Nat} (rsk : K) (U : Mat k d K) : Mat k k K := (ltsaProjD rsk U).get
 
 def ltsaTripletsAt (i : Fin N) (nb : Fin k → Fin N) (P : Mat k k K) (shift : K) : List (Triplet N N K) :=
   (i, i, shift) ::
@@ -100,13 +116,13 @@ def ltsaTripletsAt (i : Fin N) (nb : Fin k → Fin N) (P : Mat k k K) (shift : K
 
 def ltsaTriplets {d : Nat} (nb : Fin N → Fin k → Fin N) (rsk : K) (U : Fin N → Mat k d K) (shift : K) :
     List (Triplet N N K) :=
-  overFin N fun i => ltsaTripletsAt i (nb i) (ltsaProj rsk (U i)) shift
+  overFin N fun i => ltsaTripletsAt i (nb i) (ltsaProjD rsk (U i)).get shift
 
 def ltsaM {d : Nat} (nb : Fin N → Fin k → Fin N) (rsk : K) (U : Fin N → Mat k d K) (shift : K) : Mat N N K :=
   fromTriplets (ltsaTriplets nb rsk U shift)
 
-def ltsaMArr {d : Nat} (nb : Fin N → Fin k → Fin N) (rsk : K) (U : Fin N → Mat k d K) (shift : K) : Mat N N K :=
-  fromTripletsArr (ltsaTriplets nb rsk U shift)
+def ltsaMD {d : Nat} (nb : Fin N → Fin k → Fin N) (rsk : K) (U : Fin N → Mat k d K) (shift : K) : DMat N N K :=
+  fromTripletsD (ltsaTriplets nb rsk U shift)
 
 end
 
@@ -153,51 +169,58 @@ variable {N k : Nat}
 def colOf {d : Nat} (U : Mat k d K) (c : Int) : Vec k K :=
   if h : 1 ≤ c ∧ c.toNat ≤ d then fun a => U a ⟨c.toNat - 1, by omega⟩ else fun _ => 0
 
-/-- `Yi` before orthogonalisation, as a list of columns (valid when `hlleIndexErr d = none`):
+/-- `Yi` before orthogonalisation, as a list of (tabulated) columns (valid when `hlleIndexErr d = none`):
     `[1 | U | products]`, the last assignment to a column wins -/
-def hlleYi0 {d : Nat} (U : Mat k d K) : List (Vec k K) :=
+def hlleYi0 {d : Nat} (U : Mat k d K) : List (DVec k K) :=
   let ws := (hlleWrites d).reverse
   (List.range (hlleCols d)).map fun c =>
-    if c = 0 then fun _ => 1
-    else if c ≤ d then colOf U c
+    if c = 0 then DVec.ofFn fun _ => 1
+    else if c ≤ d then DVec.ofFn (colOf U c)
     else match ws.find? (fun w => w.1 == (c : Int)) with
-      | some w => Vec.materialize fun a => colOf U w.2.1 a * colOf U w.2.2 a
-      | none => fun _ => 0
+      | some w => DVec.ofFn fun a => colOf U w.2.1 a * colOf U w.2.2 a
+      | none => DVec.ofFn fun _ => 0
 
-/-- inner loops of the orthogonalisation: `r = col_i·col_j; col_i -= r*col_j` for every finished `col_j` in order,
+/-- `r = col_i.dot(col_j); col_i -= r * col_j` -/
+def gsSub (v q : DVec k K) : DVec k K :=
+  let r := Mat.dot v.get q.get
+  DVec.ofFn fun a => v.get a - r * q.get a
+
+/-- inner loops of the orthogonalisation: subtract the component along every finished column in order,
     then `col_i *= 1/norm` -/
-def gsOne (sqrtO : K → K) (done : List (Vec k K)) (c : Vec k K) : Vec k K :=
-  let c' := done.foldl (fun v q => let r := Mat.dot v q; Vec.materialize fun a => v a - r * q a) c
-  let nrm := sqrtO (Mat.dot c' c')
+def gsOne (sqrtO : K → K) (done : List (DVec k K)) (c : DVec k K) : DVec k K :=
+  let c' := done.foldl gsSub c
+  let nrm := sqrtO (Mat.dot c'.get c'.get)
   let s := 1 / nrm
-  Vec.materialize fun a => c' a * s
+  DVec.ofFn fun a => c'.get a * s
 
-def gramSchmidt (sqrtO : K → K) : List (Vec k K) → List (Vec k K) → List (Vec k K)
+def gramSchmidt (sqrtO : K → K) : List (DVec k K) → List (DVec k K) → List (DVec k K)
   | done, [] => done
   | done, c :: rest => gramSchmidt sqrtO (done ++ [gsOne sqrtO done c]) rest
 
 /-- `colsum = col.sum(); if (colsum > 1e-4) col /= colsum` -/
-def colsumNorm (thr : K) (v : Vec k K) : Vec k K :=
-  let s := sumFin k v
-  if thr < s then Vec.materialize fun a => v a / s else v
+def colsumNorm (thr : K) (v : DVec k K) : DVec k K :=
+  let s := sumFin k v.get
+  if thr < s then DVec.ofFn fun a => v.get a / s else v
 
 /-- `Yi.rightCols(dp)` after Gram–Schmidt and the column-sum step -/
-def hlleH {d : Nat} (sqrtO : K → K) (thr : K) (U : Mat k d K) : List (Vec k K) :=
+def hlleH {d : Nat} (sqrtO : K → K) (thr : K) (U : Mat k d K) : List (DVec k K) :=
   let q := gramSchmidt sqrtO [] (hlleYi0 U)
   let q := q.mapIdx fun c v => if 1 + d ≤ c ∧ c < 1 + d + hlleDp d then colsumNorm thr v else v
   q.drop (q.length - (rightColsArg d (dpExpr d)).toNat)
 
 /-- `gram_matrix = Yi.rightCols(dp) * Yi.rightCols(dp)ᵀ` -/
-def hlleProj {d : Nat} (sqrtO : K → K) (thr : K) (U : Mat k d K) : Mat k k K :=
+def hlleProjD {d : Nat} (sqrtO : K → K) (thr : K) (U : Mat k d K) : DMat k k K :=
   let H := hlleH sqrtO thr U
-  Mat.materialize fun a b => (H.map fun h => h a * h b).sum
+  DMat.ofFn fun a b => (H.map fun h => h.get a * h.get b).sum
+
+def hlleProj {d : Nat} (sqrtO : K → K) (thr : K) (U : Mat k d K) : Mat k k K := (hlleProjD sqrtO thr U).get
 
 def hlleTripletsAt (nb : Fin k → Fin N) (P : Mat k k K) : List (Triplet N N K) :=
   (List.finRange k).flatMap fun a => (List.finRange k).map fun b => (nb a, nb b, P a b)
 
 def hlleTriplets {d : Nat} (nb : Fin N → Fin k → Fin N) (sqrtO : K → K) (thr : K) (U : Fin N → Mat k d K) :
     List (Triplet N N K) :=
-  overFin N fun i => hlleTripletsAt (nb i) (hlleProj sqrtO thr (U i))
+  overFin N fun i => hlleTripletsAt (nb i) (hlleProjD sqrtO thr (U i)).get
 
 /-- `hessian_weight_matrix`; the index defect (if any) is an explicit error, never a totalised default -/
 def hlleM {d : Nat} (nb : Fin N → Fin k → Fin N) (sqrtO : K → K) (thr : K) (U : Fin N → Mat k d K) :
@@ -206,11 +229,11 @@ def hlleM {d : Nat} (nb : Fin N → Fin k → Fin N) (sqrtO : K → K) (thr : K)
   | some e => .error e
   | none => .ok (fromTriplets (hlleTriplets nb sqrtO thr U))
 
-def hlleMArr {d : Nat} (nb : Fin N → Fin k → Fin N) (sqrtO : K → K) (thr : K) (U : Fin N → Mat k d K) :
-    Except Err (Mat N N K) :=
+def hlleMD {d : Nat} (nb : Fin N → Fin k → Fin N) (sqrtO : K → K) (thr : K) (U : Fin N → Mat k d K) :
+    Except Err (DMat N N K) :=
   match hlleIndexErr d with
   | some e => .error e
-  | none => .ok (fromTripletsArr (hlleTriplets nb sqrtO thr U))
+  | none => .ok (fromTripletsD (hlleTriplets nb sqrtO thr U))
 
 end
 end TapkeeVerif.LocallyLinear
